@@ -35,6 +35,26 @@ theorem sl_p4 : obsR (run slApp ctx0 4 4 2000).halt (run slApp ctx0 4 4 2000).fi
     (some .offEnd, [0#32, 0#32, 0#32, 64#32, 8#32, 0xFFFFFFC8#32]) := by
   rw [← Proofs.Mvp60Fast.runFast_eq_run]; decide +kernel
 
+/-- `slApp` with a `ret` in the middle (the run ends there; the instructions behind it are decoded, some even issued, none
+executed): `li t0, 7; addi t1, t0, 1; mul t2, t1, t0; ret; add t0, t2, t1; div t1, t0, t1` -/
+def slrApp : Model.Seq.App :=
+  { instrs := [.li_ { rd := 5, imm := 7#32 }, .addi_ { rd := 6, rs := 5, imm := 1#32 }, .mul_ { rd := 7, rs1 := 6, rs2 := 5 },
+               .ret_ {}, .add_ { rd := 5, rs1 := 7, rs2 := 6 }, .div_ { rd := 6, rs1 := 5, rs2 := 6 }],
+    labels := {} }
+
+theorem slr_class : StraightLineRet slrApp = true ∧ StraightLine slrApp = false := by decide
+
+theorem slr_seq : obsR (Model.Seq.runMvp1 slrApp ⟨ctx0, 0⟩ 20).halt (Model.Seq.runMvp1 slrApp ⟨ctx0, 0⟩ 20).final.ctx =
+    (some .ret, [0#32, 0#32, 0#32, 7#32, 8#32, 56#32]) := by decide +kernel
+
+theorem slr_p2 : obsR (run slrApp ctx0 2 2 2000).halt (run slrApp ctx0 2 2 2000).final.ctx =
+    (some .ret, [0#32, 0#32, 0#32, 7#32, 8#32, 56#32]) := by
+  rw [← Proofs.Mvp60Fast.runFast_eq_run]; decide +kernel
+
+theorem slr_p4 : obsR (run slrApp ctx0 4 4 2000).halt (run slrApp ctx0 4 4 2000).final.ctx =
+    (some .ret, [0#32, 0#32, 0#32, 7#32, 8#32, 56#32]) := by
+  rw [← Proofs.Mvp60Fast.runFast_eq_run]; decide +kernel
+
 /-- a register-only program with a loop, a call and return, and a `mul`:
 ```
   li s0, 3
